@@ -231,7 +231,7 @@ func checkExistenceGates(r *Run, p *Prog) {
 		ok := len(gate) > 0
 		var path []string
 		for _, ex := range c.Exits() {
-			if ex.Return != nil && len(ex.Return.Results) == 2 && isNilIdent(val, ex.Return.Results[1]) && vis[ex.P] {
+			if ex.Return != nil && mayReturnNilError(val, ex.Return) && vis[ex.P] {
 				ok = false
 				path = q.PathTo(ex.P)
 			}
@@ -301,7 +301,7 @@ func checkExistenceGates(r *Run, p *Prog) {
 		ok := len(gate) > 0
 		var path []string
 		for _, e := range c.Exits() {
-			if e.Return != nil && len(e.Return.Results) == 1 && isNilIdent(val, e.Return.Results[0]) && vis[e.P] {
+			if e.Return != nil && mayReturnNilError(val, e.Return) && vis[e.P] {
 				ok = false
 				path = q.PathTo(e.P)
 			}
@@ -527,25 +527,42 @@ func checkSenderForgets(r *Run, p *Prog) {
 			return false, "no Switch(ctx, v, map) call"
 		}
 		ok := false
-		inspectNoLit(fn.Body, func(n ast.Node) bool {
-			rs, isRange := n.(*ast.RangeStmt)
-			if isRange && types.ExprString(rs.X) == mapExpr {
-				ast.Inspect(rs.Body, func(y ast.Node) bool {
-					if call, isCall := y.(*ast.CallExpr); isCall {
-						if bi, isB := Callee(fn, call).(*types.Builtin); isB && bi.Name() == "delete" && len(call.Args) == 2 && types.ExprString(call.Args[0]) == mapExpr && objOf(fn, call.Args[1]) == objOf(fn, rs.Key) {
-							ok = true
+		var scan func(fn *FuncNode, mapExpr string, depth int)
+		scan = func(fn *FuncNode, mapExpr string, depth int) {
+			inspectNoLit(fn.Body, func(n ast.Node) bool {
+				// the send loop extracted into a package-local helper that receives the map
+				if call, isCall := n.(*ast.CallExpr); isCall && depth == 0 {
+					for i, a := range call.Args {
+						if types.ExprString(a) != mapExpr {
+							continue
+						}
+						if h := p.ByObj[CalleeFunc(fn, call)]; h != nil && h.Body != nil && h.Pkg == fn.Pkg {
+							if po := paramObj(h, i); po != nil {
+								scan(h, po.Name(), depth+1)
+							}
 						}
 					}
-					return true
-				})
-			}
-			if call, isCall := n.(*ast.CallExpr); isCall {
-				if bi, isB := Callee(fn, call).(*types.Builtin); isB && bi.Name() == "clear" && len(call.Args) == 1 && types.ExprString(call.Args[0]) == mapExpr {
-					ok = true
 				}
-			}
-			return true
-		})
+				rs, isRange := n.(*ast.RangeStmt)
+				if isRange && types.ExprString(rs.X) == mapExpr {
+					ast.Inspect(rs.Body, func(y ast.Node) bool {
+						if call, isCall := y.(*ast.CallExpr); isCall {
+							if bi, isB := Callee(fn, call).(*types.Builtin); isB && bi.Name() == "delete" && len(call.Args) == 2 && types.ExprString(call.Args[0]) == mapExpr && objOf(fn, call.Args[1]) == objOf(fn, rs.Key) {
+								ok = true
+							}
+						}
+						return true
+					})
+				}
+				if call, isCall := n.(*ast.CallExpr); isCall {
+					if bi, isB := Callee(fn, call).(*types.Builtin); isB && bi.Name() == "clear" && len(call.Args) == 1 && types.ExprString(call.Args[0]) == mapExpr {
+						ok = true
+					}
+				}
+				return true
+			})
+		}
+		scan(fn, mapExpr, 0)
 		_ = mapObj
 		return ok, "map " + mapExpr
 	}
